@@ -433,6 +433,17 @@ func (w *Writer) Write(v interface{}) *Writer {
 		return w
 	}
 
+	if !w.writeBasic(v) {
+		w.err = w.writeReflect(v)
+	}
+	return w
+}
+
+// writeBasic 写入 Write 直接支持的基础类型，返回该值是否属于这些类型。
+// Write 与 writeReflect 共用它：writeReflect 遇到既不是切片/数组/结构体、也不是受支持基础类型的值时
+// 必须返回错误；此前 writeReflect 的 default 回到 Write，而 Write 的 default 又回到 writeReflect，
+// 对 int/uint/map/chan/func/具名基础类型/nil 接口等值会无限递归直至栈溢出。
+func (w *Writer) writeBasic(v interface{}) bool {
 	switch val := v.(type) {
 	case *byte:
 		w.writeByte(*val)
@@ -491,9 +502,9 @@ func (w *Writer) Write(v interface{}) *Writer {
 	case []byte:
 		w.WriteBytesWithLength(val, LengthSize4)
 	default:
-		w.err = w.writeReflect(v)
+		return false
 	}
-	return w
+	return true
 }
 
 // writeReflect 使用反射机制写入复杂类型
@@ -541,8 +552,13 @@ func (w *Writer) writeReflect(v interface{}) error {
 		return nil
 
 	default:
-		w.Write(v)
-		return nil
+		if !rv.IsValid() || !rv.CanInterface() {
+			return fmt.Errorf("cannot write nil value")
+		}
+		if !w.writeBasic(rv.Interface()) {
+			return fmt.Errorf("unsupported type for writing: %T", v)
+		}
+		return w.err
 	}
 }
 
